@@ -23,14 +23,22 @@ CHECKS = {
             'For inputs built to be full of sort ties (equal lengths, duplicates, late-differing names) below and above the 100-sequence switch, the real binary is run on reversal, rotation and random permutations (also split over two files) and the column-membership sets must be equal; rows must come back in the order supplied.',
             'Names pairwise distinct within 200 characters and free of whitespace (premise of the property); permutations are sampled, not enumerated.',
             "4/C03"),
-    "C04": (False, "", "", "", "4/C04"),
+    "C04": (True,
+            "metamorphic runtime monitor: many re-presentations of one record set (gap insertions, formats, wrapping, blank lines/CRLF, multi-file and stdin splits, kalign's own outputs) through the real CLI (ASan+UBSan), output bytes compared with the bare one-file FASTA run",
+            'For each generated record set the CLI is run on the bare FASTA file and on 12 (thorough: about 20) re-presentations written by independent writers; every presentation must be accepted and give byte-identical output. Sanitizer reports and leaks on successful runs fail the check as well.',
+            'Names without whitespace, residues are letters, records keep their order across parts; tab characters inside sequence lines are not generated.',
+            "4/C04"),
     "C05": (False, "", "", "", "4/C05"),
     "C06": (True,
             'self-consistency monitor over real write/read executions: msa object after kalign_run vs msa object after kalign_read_input(kalign_write_msa(...)), field by field (names, residues, gaps[]), first hop in 3 formats and second hop over ordered format pairs, ASan+UBSan build',
             'Alignments kalign itself produces over the width / row-count / name classes the writers and readers branch on are written in every format, read back and converted again; the re-read msa object must equal the written one in row count, order, names, residues and gap vectors, and a conversion must neither be refused nor silently lose data.',
             'Names over [A-Za-z0-9_.|-], 1..200 characters; the second hop of a gap-free alignment is only required not to lose data silently (such a file is by design not recognised as an alignment).',
             "4/C06"),
-    "C07": (False, "", "", "", "4/C07"),
+    "C07": (True,
+            'certified-optimum oracle: planted pairwise alignments whose uniqueness is proved case by case by an independent full-matrix interval bound (ref/c07oracle.c) are aligned by the real CLI (ASan+UBSan) as single sequences and as groups of identical copies; only certified cases are judged',
+            "Each judged case carries its own certificate (margin of the planted alignment over every other alignment under an interval valuation that covers the kernels' level-dependent terms, under both role assignments); kalign must return exactly the planted column pairs for seq-seq, seq-profile and profile-profile merges, on both sides of the 500-column switch, for all five types and user penalties. Uncertified cases are skipped and counted; the run is inconclusive below a minimum number of certified cases.",
+            'Reference objective validated against the unchanged code in the design phase (DESIGN 4/C07); matrices from ref/golden_params.json; only inputs with a certifiably unique optimum are covered, by design.',
+            "4/C07"),
     "C08": (True,
             'runtime oracle on the msa object after kalign_run for k identical copies (ASan+UBSan build, hook runtime active), all admissible types x thread counts',
             'k copies of one string over ten alphabet classes, lengths 1..5000 around the 500-column switch and copies 2..500 around the 100-sequence switch are aligned with every type admissible for the detected kind; every returned row must be the input string. Held = no gap anywhere and no sanitizer/monitor report.',
@@ -73,7 +81,11 @@ CHECKS = {
             'Every alignment of the workload is written as FASTA, MSF and Clustal by kalign_write_msa and to stdout by the CLI; independent strict readers check wrapping at 60, headers, block structure, that every block lists every sequence in order, and for MSF the declared length, per-row and header GCG checksums and the P/N label against values recomputed from the msa object.',
             'MSF/Clustal grammar as stated in the property (GCG checksum formula, blocks of at most 60 columns); kind taken from msa->biotype.',
             "4/C15"),
-    "C16": (False, "", "", "", "4/C16"),
+    "C16": (True,
+            'history monitor: interleaved job scripts executed by one driver process vs each job replayed alone in a fresh process (digests of status codes, msa dumps, scores, written bytes), plus allocation accounting (--wrap malloc family) read at quiescence and LeakSanitizer, under MALLOC_PERTURB_ values and heap-churn jobs',
+            "Histories of 5..60 library calls (kalign(), read of 1-2 files, run, dump, write, re-read, compare, rejected calls, 64->1->8 threads, DNA<->protein) with up to three msa-owning jobs interleaved are executed in one process; every job's digest must equal the digest of the same job alone in a fresh process, and after the last free the count of live blocks allocated from kalign code must be zero.",
+            "MSF time stamp masked; allocations made inside libgomp are outside the accounting (the property's own exclusion); histories are sampled.",
+            "4/C16"),
     "C17": (True,
             'differential monitor: kalign_msa_compare on real msa objects (two runs in one process, files in three formats) vs an independent implementation of the score definition (ref/reftool.c), plus metamorphic checks (range, identity = 100, row-order invariance), ASan+UBSan build',
             'For every generated pair of alignments of the same uniquely named sequences the returned score must equal the independently computed one within 1e-3, lie in [0,100], be 100 for the same alignment with rows permuted and all-gap columns inserted, and not change when the rows of either argument are permuted. The run fails as inconclusive unless the observed scores span at least four deciles.',
